@@ -182,7 +182,12 @@ Inductive c03case :=
    1 client stream, 2 server stream, 3 bidi), handler result k returned after
    the handler sent [sent]; caller's observation *)
 | CE2EU (k : option hkind) (reply : option Z) (obs : uobs)
-| CE2ES (rk : Z) (k : option hkind) (sent : list Z) (obs : sobs).
+| CE2ES (rk : Z) (k : option hkind) (sent : list Z) (obs : sobs)
+(* end to end, the caller gives up (cancel / own deadline) while messages the
+   handler sent are still unread and the handler has returned k: the caller must
+   then observe an error - its own cancellation (Canceled / DeadlineExceeded) or
+   the handler's status - never a success, and no invented message *)
+| CE2EAbort (rk : Z) (k : option hkind) (sent : list Z) (obs : sobs).
 
 Definition check (c : c03case) : list nat :=
   match c with
@@ -214,6 +219,15 @@ Definition check (c : c03case) : list nat :=
   | CE2EU k reply obs =>
       (if uobs_eqb (uout_obs (client_unary decodes (m_unary k reply))) obs then [] else [1%nat]) ++
       (if spec_unary_obs k reply obs then [] else [2%nat])
+  | CE2EAbort rk k sent obs =>
+      (if is_prefix (fst obs) sent then [] else [2%nat]) ++
+      (match snd obs with
+       | Some (Some (c, m, d)) =>
+           if (c =? cCanceled) || (c =? cDeadlineExceeded)
+              || match k with Some k' => st3_eqb (c, m, d) (spec_status true k') | None => false end
+           then [] else [2%nat]
+       | _ => [2%nat]      (* io.EOF, or still "succeeding" *)
+       end)
   | CE2ES rk k sent obs =>
       (let '(bs, o) := client_stream_run tok_reset (map (fun b => msg_env_c b) sent ++ [m_trailer k]) in
        if sobs_eqb (bs, option_map sout_obs o) obs then [] else [1%nat]) ++
